@@ -152,7 +152,7 @@ def gen_case(rng, tier):
         A = gen_mat(rng)
         n = major(A)
         mask = [rng.random() < 0.5 for _ in range(n)]
-        if fn == "slice_indices_mask" and bad:
+        if fn == "slice_indices_mask" and (bad or rng.random() < 0.25):
             mask = mask + [True] if rng.random() < 0.5 or n == 0 else mask[:-1]
         return {"fn": fn, "A": A, "mask": mask}
     if fn in ("slice_int", "slice_indices_int"):
@@ -309,7 +309,15 @@ def np_dense(m):
 
 
 def _wf(M):
+    """the python twin of Csr.wfb (stricter than scipy's check_format, which accepts a decreasing indptr)"""
     try:
+        nmaj, nmin = (M.shape if M.format == "csr" else M.shape[::-1])
+        ip = [int(x) for x in M.indptr]
+        ix = [int(x) for x in M.indices]
+        if len(ip) != nmaj + 1 or ip[0] != 0 or any(a > b for a, b in zip(ip, ip[1:])):
+            return False
+        if ip[-1] != len(ix) or len(ix) != len(M.data) or any(not (0 <= c < nmin) for c in ix):
+            return False
         M.check_format(full_check=True)
         return True
     except Exception:
@@ -317,14 +325,19 @@ def _wf(M):
 
 
 def canon(M):
-    """canonical output of a compressed result: raw arrays + dense reading (line-wise)"""
+    """canonical output of a compressed result: raw arrays + dense reading (line-wise).
+    A result that violates scipy's own format invariants is never densified (scipy's C code reads out of bounds)."""
+    nmaj, nmin = (M.shape if M.format == "csr" else M.shape[::-1])
+    out = {"fmt": M.format, "nrows": int(nmaj), "ncols": int(nmin), "indptr": [int(x) for x in M.indptr],
+           "indices": [int(x) for x in M.indices], "data": [frac(x) for x in M.data], "wf_out": _wf(M)}
+    if not out["wf_out"]:
+        out["dense"] = "malformed result"
+        return out
     D = M.toarray()
     if M.format == "csc":
         D = D.T
-    nmaj, nmin = (M.shape if M.format == "csr" else M.shape[::-1])
-    return {"fmt": M.format, "nrows": int(nmaj), "ncols": int(nmin), "indptr": [int(x) for x in M.indptr],
-            "indices": [int(x) for x in M.indices], "data": [frac(x) for x in M.data],
-            "dense": [[frac(x) for x in row] for row in D], "wf_out": _wf(M)}
+    out["dense"] = [[frac(x) for x in row] for row in D]
+    return out
 
 
 def _ia(l):
@@ -443,6 +456,8 @@ def impl_run(case):
     if fn == "bdi_sq":
         return {"i": _ints(r)}
     if fn == "kron":
+        if r.format in FMTS and not _wf(r):
+            return {"dense": "malformed result", "wf_out": False}
         D = r.toarray()
         sh = r.shape
         if case["A"]["fmt"] == "csc":
@@ -547,8 +562,13 @@ def _bd(blocks):
 
 
 def _same(M, D):
-    """sparse/dense result M equals dense reference D exactly (shape and values)"""
-    X = M.toarray() if sps.issparse(M) else np.asarray(M)
+    """sparse/dense result M equals dense reference D exactly (shape and values); a malformed sparse result is never densified"""
+    if sps.issparse(M):
+        if M.format in FMTS and not _wf(M):
+            return False
+        X = M.toarray()
+    else:
+        X = np.asarray(M)
     return X.shape == tuple(D.shape) and np.array_equal(X, D)
 
 
